@@ -127,4 +127,5 @@ CodeTable ==
     /\ (msg.m = "toolsCallUnknown" /\ NameKnown(msg.m, msg.p) => out.iserr /\ out.code = 32602)
     /\ (msg.m = "resReadUnknown" /\ msg.p \in {"ok", "argsNull", "argsList"} => out.iserr /\ out.code = 32602)
     /\ (msg.m \in {"ping", "toolsList", "resourcesList", "customOk", "customAck", "customStray"} => ~out.iserr)
+    /\ (msg.m \in {"toolsCallOk", "resReadOk"} /\ msg.p = "ok" => ~out.iserr)          \* a handler that returns is answered with a result
 =============================================================================
